@@ -435,7 +435,7 @@ func (t *UpdateTran) Delete(th *core.Thread, table string, off uint64) {
 	for i := range ts.Indexes {
 		is := ts.Indexes[i].Ixspec
 		keys[i] = is.Key(rec)
-		t.fkeyDeleteBlock(ts, i, keys[i])
+		t.fkeyDeleteBlock(ts, i, keys[i], schema.CascadeDeletes)
 	}
 	t.ck(t.db.ck.Delete(t.ct, table, off, keys))
 	func() {
@@ -463,7 +463,10 @@ func (t *UpdateTran) Delete(th *core.Thread, table string, off uint64) {
 	t.db.CallTrigger(th, t, table, rec, "")
 }
 
-func (t *UpdateTran) fkeyDeleteBlock(ts *meta.Schema, i int, key string) {
+// fkeyDeleteBlock panics if key is referenced through a foreign key
+// that does not cascade this kind of change (cascades is
+// schema.CascadeDeletes for a delete, schema.CascadeUpdates for a key update)
+func (t *UpdateTran) fkeyDeleteBlock(ts *meta.Schema, i int, key string, cascades byte) {
 	if key == "" {
 		return
 	}
@@ -481,7 +484,7 @@ func (t *UpdateTran) fkeyDeleteBlock(ts *meta.Schema, i int, key string) {
 			}
 			fkey = encKey
 		}
-		if fkth.Mode == schema.Block &&
+		if fkth.Mode&cascades == 0 &&
 			t.fkeyDeleteExists(fkth, fkey, len(ix.Columns)) {
 			panic("delete blocked by foreign key: " +
 				fkth.Table + " " + str.Join("(,)", fkth.Columns))
@@ -600,7 +603,7 @@ func (t *UpdateTran) update(th *core.Thread, table string, oldoff uint64, newrec
 		newkeys[i] = is.Key(newrec)
 		if oldkeys[i] != newkeys[i] {
 			t.dupOutputBlock(table, i, ix, ti.Indexes[i], newrec, newkeys[i])
-			t.fkeyDeleteBlock(ts, i, oldkeys[i])
+			t.fkeyDeleteBlock(ts, i, oldkeys[i], schema.CascadeUpdates)
 			if block {
 				t.fkeyOutputBlock(ts, i, newrec)
 			}
@@ -642,6 +645,9 @@ func (t *UpdateTran) update(th *core.Thread, table string, oldoff uint64, newrec
 
 func (t *UpdateTran) fkeyUpdateCascade(th *core.Thread, ts *meta.Schema, i int,
 	rec core.Record, key string) { // rec is old, key is new
+	if key == "" {
+		return // empty foreign key values do not reference anything
+	}
 	ix := ts.Indexes[i]
 	ixcols := ix.Columns
 	encoded := ix.Ixspec.Encodes()
